@@ -286,6 +286,13 @@ def build_source(s: dict, dtype, dt: float):
         if k == "uniform_plane":
             return fdtdx.UniformPlaneSource(amplitude=s.get("amplitude", 1.0), **kw, **common)
         return fdtdx.GaussianPlaneSource(radius=s["radius"], std=s.get("std", 1 / 3), **kw, **common)
+    if k == "hard_plane":  # not exported at top level; reachable as fdtdx.objects.sources.source.HardConstantAmplitudePlanceSource
+        from fdtdx.objects.sources.source import HardConstantAmplitudePlanceSource
+
+        kw = dict(direction=s["direction"], amplitude=s.get("amplitude", 1.0))
+        if "e_pol" in s:
+            kw["fixed_E_polarization_vector"] = tuple(s["e_pol"])
+        return HardConstantAmplitudePlanceSource(**kw, **common)
     if k == "tfsf_region":
         kw = dict(direction=s["direction"], propagation_axis=int(s["axis"]), periodic_axes=tuple(s.get("periodic_axes", ())), amplitude=s.get("amplitude", 1.0))
         if "e_pol" in s:
@@ -385,6 +392,24 @@ def build_boundaries(spec: dict, volume):
     objs, cons = [], []
     faces = spec.get("faces", {})
     kvec = tuple(spec.get("bloch_vector", (0.0, 0.0, 0.0)))
+    if spec.get("faces_via_config"):
+        # the documented user path: BoundaryConfig -> boundary_objects_from_config (object names are the library's)
+        from fdtdx.objects.boundaries.initialization import BoundaryConfig, boundary_objects_from_config
+
+        kw = {"bloch_vector": kvec} if any(f.get("kind") == "bloch" for f in faces.values()) else {}
+        for face in FACES:
+            f = faces.get(face, {"kind": "none"})
+            if f["kind"] == "none":
+                raise env.HarnessError("faces_via_config needs a boundary on every face")
+            sfx = face.replace("_", "")
+            kw[f"boundary_type_{sfx}"] = f["kind"]
+            if f["kind"] == "pml":
+                kw[f"thickness_grid_{sfx}"] = int(f["thickness"])
+                for k in ("kappa_start", "kappa_end", "kappa_order", "alpha_start", "alpha_end", "alpha_order", "sigma_start", "sigma_end", "sigma_order"):
+                    if k in f:
+                        kw[f"{k}_{sfx}"] = f[k]
+        bdict, cons = boundary_objects_from_config(BoundaryConfig(**kw), volume)
+        return list(bdict.values()), list(cons)
     for face in FACES:
         f = faces.get(face, {"kind": "none"})
         kind = f["kind"]
